@@ -14,7 +14,7 @@ import (
 func init() {
 	register(stream{
 		name: "polipld",
-		rule: "policy.FromIPLD followed by Policy.ToIPLD on IPLD nodes: well-formed policies of depth ≤ 3 from the statement grammar (all eleven operators, selectors that print differently from their source such as \".a.?\" and \".a???\"), and malformed shapes obtained from them by replacing a subtree with a random value, changing an operator string, dropping or adding a tuple element, using out-of-range integers, invalid selectors and invalid patterns; the same nodes are also sent through DAG-JSON (FromDagJson). Compared: accept/reject and the written-back node. Added later: patterns with runs of stars next to escapes (**, \\**, a**b, *\\**), quoted field names with ?? inside, and the DAG-JSON leg for every node without floats (bytes and links included). Non-trivial = every case (each exercises the decoder). Distinct = distinct protocol lines.",
+		rule: "policy.FromIPLD followed by Policy.ToIPLD on IPLD nodes: well-formed policies of depth ≤ 3 from the statement grammar (all eleven operators, selectors that print differently from their source such as \".a.?\" and \".a???\"), and malformed shapes obtained from them by replacing a subtree with a random value, changing an operator string, dropping or adding a tuple element, using out-of-range integers, invalid selectors and invalid patterns; the same nodes are also sent through DAG-JSON (FromDagJson). Compared: accept/reject and the written-back node. Added later: patterns with runs of stars next to escapes (**, \\**, a**b, *\\**), quoted field names with ?? inside, and the DAG-JSON leg for every node without floats (bytes and links included). Every literal kind (link, bytes, nested) at every literal position through both entry points; tuples too long or too short for their operator at the top and nested. Non-trivial = every case (each exercises the decoder). Distinct = distinct protocol lines.",
 		run:  runPolIpldStream,
 		eval: evalPolIpld,
 		cmp:  cmpImplSpec,
@@ -178,6 +178,33 @@ func runPolIpldStream(c *ctx) error {
 	}
 	for _, s := range []string{"l()", "n", "m()", "i1", "l(l())", "l(i1)", "l(l(" + str("==") + "))", "l(l(i1,i2,i3))"} {
 		emit(s, "ipld-special")
+	}
+	// every literal kind at every position a literal can take (links and bytes have a form of their own in DAG-JSON)
+	{
+		lk := "k01711220" + strings.Repeat("ab", 32)
+		lits := []string{lk, "b0102", "b", "l(" + lk + ")", "l(b01," + lk + ",i1)", "m(61:" + lk + ")", "m(61:b01,62:l(" + lk + "))", "n", "T", "i-3", "s78", "l()", "m()"}
+		for _, lit := range lits {
+			for _, op := range []string{"==", ">", "<="} {
+				emit("l(l("+str(op)+","+str(".a")+","+lit+"))", "ipld-literal")
+			}
+			emit("l(l("+str("not")+",l("+str("==")+","+str(".")+","+lit+")))", "ipld-literal")
+			emit("l(l("+str("any")+","+str(".l")+",l("+str("==")+","+str(".")+","+lit+")))", "ipld-literal")
+			emit("l(l("+str("and")+",l(l("+str("==")+","+str(".x")+","+lit+"),l("+str("==")+","+str(".y")+","+lit+"))))", "ipld-literal")
+		}
+		// tuples that are too long or too short for their operator, at the top and nested
+		eq := "l(" + str("==") + "," + str(".a") + ",i1)"
+		for _, bad := range []string{
+			"l(" + str("not") + "," + eq + "," + eq + ")", "l(" + str("not") + ")", "l(" + str("not") + "," + eq + ",i1)",
+			"l(" + str("and") + ",l(" + eq + "),l(" + eq + "))", "l(" + str("or") + ",l(" + eq + "),i1)", "l(" + str("and") + ")",
+			"l(" + str("==") + "," + str(".a") + ")", "l(" + str("==") + "," + str(".a") + ",i1,i2)", "l(" + str("like") + "," + str(".a") + ")",
+			"l(" + str("like") + "," + str(".a") + "," + str("x") + "," + str("y") + ")", "l(" + str("all") + "," + str(".a") + ")",
+			"l(" + str("all") + "," + str(".a") + "," + eq + "," + eq + ")", "l(" + str("any") + "," + str(".a") + "," + eq + ",i1)",
+		} {
+			emit("l("+bad+")", "ipld-arity")
+			emit("l(l("+str("not")+","+bad+"))", "ipld-arity")
+			emit("l(l("+str("and")+",l("+eq+","+bad+")))", "ipld-arity")
+			emit("l(l("+str("all")+","+str(".l")+","+bad+"))", "ipld-arity")
+		}
 	}
 	for i := 0; i < n; i++ {
 		k := 1 + c.rng.Intn(3)
